@@ -590,8 +590,9 @@ func (vc *VC) execAppend(x *ssa.Call, c *ssa.CallCommon, st *State) {
 		}
 	} else {
 		nc := vc.fresh("app.in", "(Array Int "+es+")")
-		vc.assume(fmt.Sprintf("(forall ((j!a Int)) (! (=> (and (<= 0 j!a) (< j!a %s)) (= (select %s (+ (s-off %s) %s j!a)) %s)) :pattern ((select %s (+ (s-off %s) %s j!a)))))",
-			n, nc, s, ln, srcElem("j!a"), nc, s, ln))
+		lo := vc.define("app.lo", "Int", fmt.Sprintf("(+ (s-off %s) %s)", s, ln))
+		vc.assume(fmt.Sprintf("(forall ((k!a Int)) (! (=> (and (<= %s k!a) (< k!a (+ %s %s))) (= (select %s k!a) %s)) :pattern ((select %s k!a))))",
+			lo, lo, n, nc, srcElem("(- k!a "+lo+")"), nc))
 		vc.assume(fmt.Sprintf("(forall ((i!a Int)) (! (=> (or (< i!a (+ (s-off %s) %s)) (>= i!a (+ (s-off %s) %s))) (= (select %s i!a) (select %s i!a))) :pattern ((select %s i!a))))",
 			s, ln, s, newLen, nc, inArr, nc))
 		inNew = nc
@@ -609,8 +610,8 @@ func (vc *VC) execAppend(x *ssa.Call, c *ssa.CallCommon, st *State) {
 		}
 	} else {
 		nc := vc.fresh("app.re", "(Array Int "+es+")")
-		vc.assume(fmt.Sprintf("(forall ((j!c Int)) (! (=> (and (<= 0 j!c) (< j!c %s)) (= (select %s (+ %s j!c)) %s)) :pattern ((select %s (+ %s j!c)))))",
-			n, nc, ln, srcElem("j!c"), nc, ln))
+		vc.assume(fmt.Sprintf("(forall ((k!c Int)) (! (=> (and (<= %s k!c) (< k!c (+ %s %s))) (= (select %s k!c) %s)) :pattern ((select %s k!c))))",
+			ln, ln, n, nc, srcElem("(- k!c "+ln+")"), nc))
 		vc.assume(fmt.Sprintf("(forall ((i!c Int)) (! (=> (and (<= 0 i!c) (< i!c %s)) (= (select %s i!c) (select %s i!c))) :pattern ((select %s i!c))))",
 			ln, nc, pre, nc))
 		reNew = nc
@@ -653,8 +654,8 @@ func (vc *VC) execCopy(x *ssa.Call, c *ssa.CallCommon, st *State) {
 	}
 	nc := vc.fresh("copy.dst", "(Array Int "+es+")")
 	old := fmt.Sprintf("(select %s (s-arr %s))", E, dst)
-	vc.assume(fmt.Sprintf("(forall ((j!c Int)) (! (=> (and (<= 0 j!c) (< j!c %s)) (= (select %s (+ (s-off %s) j!c)) %s)) :pattern ((select %s (+ (s-off %s) j!c)))))",
-		n, nc, dst, srcElem("j!c"), nc, dst))
+	vc.assume(fmt.Sprintf("(forall ((k!c Int)) (! (=> (and (<= (s-off %s) k!c) (< k!c (+ (s-off %s) %s))) (= (select %s k!c) %s)) :pattern ((select %s k!c))))",
+		dst, dst, n, nc, srcElem("(- k!c (s-off "+dst+"))"), nc))
 	vc.assume(fmt.Sprintf("(forall ((i!c Int)) (! (=> (or (< i!c (s-off %s)) (>= i!c (+ (s-off %s) %s))) (= (select %s i!c) (select %s i!c))) :pattern ((select %s i!c))))",
 		dst, dst, n, nc, old, nc))
 	vc.noteWrite(st, hn, "(s-arr "+dst+")")
